@@ -184,9 +184,11 @@ def _after_counter(boundary: int, consts: dict, ref: dict) -> list[tuple[str, st
     except KeyError:
         cur = 0
     while cur < boundary - 3:
+        prev = cur
         cur = G.next_id("QTY")  # the public counter; creating a million quantities is too slow
-        if cur >= boundary - 3:
-            break
+        if cur <= prev:
+            return [("counter", f"the generated-name counter went from {prev} to {cur}: names are "
+                "being reused")]
     made = [Quantity((5 + i) * U.meter) for i in range(60)]
     out = []
     for n, q in sorted(consts.items()):
